@@ -155,6 +155,68 @@ def maystore_summaries(P):
 
 
 # --------------------------------------------------------------------------
+# callee facts used by the path kernel
+# --------------------------------------------------------------------------
+
+# status getters of the iterator interface: return the stored status, no side
+# effect.  Two adjacent calls with the same arguments agree (idiom
+# `if (ldb_iter_status(it) != LDB_OK) rc = ldb_iter_status(it);`).
+PURE_STATUS = ("ldb_iter_status",)
+
+
+def _call_name(e):
+    if "f" in e:
+        return e["f"]
+    for m in e.get("mac", ()):
+        return m
+    return None
+
+
+def always_nonzero(P, name, caller=None, _depth=0):
+    """Does every return of function `name` yield a non-zero value?  Decided
+    on the callee's own exploded graph (e.g. ldb_system_error)."""
+    cache = P.__dict__.setdefault("_nonzero", {})
+    f = P.resolve(name, caller) if caller is not None else (P.fns_named(name) or [None])[0]
+    if f is None:
+        return False
+    k = (f.file, f.line, f.name)
+    if k in cache:
+        return cache[k]
+    if not f.ret.startswith("int"):
+        cache[k] = False
+        return False
+    if _depth > 6:
+        return False      # not cached: a shallower query may still decide it
+    cache[k] = False      # recursion guard
+    g = XGraph(P, f)
+    res = True
+    seen = False
+    for n, (bid, st) in enumerate(g.node_list):
+        for i, e in enumerate(f.blocks[bid].ev):
+            if e["e"] != "ret":
+                continue
+            seen = True
+            st2 = g.state_before(n, i)
+            x = strip_casts(e.get("x"))
+            c = const_val(x) if x is not None else None
+            if x is None:
+                res = False
+            elif c is not None and not vars_in(x) and not fields_in(x):
+                if c == 0:
+                    res = False
+            elif isinstance(x, dict) and x.get("k") == "var":
+                if ("nz", x["n"]) not in st2:
+                    res = False
+            elif isinstance(x, dict) and x.get("k") == "call" and x.get("f"):
+                if not always_nonzero(P, x["f"], f, _depth + 1):
+                    res = False
+            else:
+                res = False
+    cache[k] = res and seen
+    return cache[k]
+
+
+# --------------------------------------------------------------------------
 # exploded graph
 # --------------------------------------------------------------------------
 
@@ -166,7 +228,11 @@ class XGraph(object):
         self.interpret = interpret
         self.keep_calls = set(keep_calls)
         self.keep_ids = set()
+        self.pure_ids = {}
         for bid, i, e in fn.events("call"):
+            if _call_name(e) in PURE_STATUS:
+                self.pure_ids[e["id"]] = key({"k": "call", "f": _call_name(e), "a": e.get("a", [])})
+                self.keep_ids.add(e["id"])
             if e.get("f") in self.keep_calls:
                 self.keep_ids.add(e["id"])
             elif "fp" in e and self.keep_calls:
@@ -290,6 +356,13 @@ class XGraph(object):
         if isinstance(r, dict):
             if r.get("k") == "call":
                 add.add(("p", lv, r["id"]))
+                if r.get("f") and always_nonzero(self.P, r["f"], self.fn):
+                    add.add(("nz", lv))
+                if r["id"] in self.pure_ids:
+                    kk = self.pure_ids[r["id"]]
+                    for f in st:
+                        if f[0] in ("cz", "cnz") and f[1] != r["id"] and self.pure_ids.get(f[1]) == kk:
+                            add.add(("z" if f[0] == "cz" else "nz", lv))
             elif r.get("k") == "bin" and r.get("op") == "=":
                 # chained assignment a = b = c
                 return self._assign(st, lv, r["r"])
@@ -331,7 +404,9 @@ class XGraph(object):
             return st
         if k in ("call", "atomic"):
             cid = e["id"]
-            st = frozenset(f for f in st if not ((f[0] in ("cz", "cnz") and f[1] == cid) or
+            pure = cid in self.pure_ids
+            st = frozenset(f for f in st if not ((f[0] in ("cz", "cnz") and
+                                                  (f[1] == cid or (not pure and f[1] in self.pure_ids))) or
                                                  (f[0] == "p" and f[2] == cid)))
             for a in e.get("a", []):
                 a = strip_casts(a)
